@@ -1,3 +1,4 @@
+import TmcgProofs.Rabin
 import TmcgProofs.PowmEq
 /-
   C09 — Arithmetic primitives agree with their mathematical definition.
@@ -71,5 +72,46 @@ theorem baseblind_eq_powm (m x p r : Int) (hp : 1 < p) (hx : 0 ≤ x) (hr : Int.
 /-- non-vacuity: 2^(-3) mod 15 through the constant-time routine (exponent shares the factor 3
     with the modulus — the case the pinned tree refused, finding F6) -/
 example : spowm 2 (-3) 15 = .ok 2 ∧ mpzPowm 2 (-3) 15 = .ok 2 ∧ spowm 2 3 15 = .ok 8 := by decide
+
+
+/-! ### modular square roots (models of src/mpz_sqrtm.cc; proofs in TmcgProofs/Rabin.lean) -/
+
+section sqrt
+open Tmcg.Rabin Tmcg.RabinProofs
+open NumberTheorySymbols
+set_option linter.unusedVariables false
+set_option linter.unusedTactic false
+set_option linter.unreachableTactic false
+set_option linter.unnecessarySeqFocus false
+
+/-- **`sqrtmp_sq`** for every odd prime: whenever `tmcg_mpz_sqrtmp_r` returns (i.e. the drawn
+    candidates contain a non-residue when one is needed), the result squares to `a` -/
+theorem sqrtmp_sq_all (p : Nat) (hp : p.Prime) (hodd : p % 2 = 1) (a : Int)
+    (hqr : jacobi a p = 1) (draws : List Nat) (r : Int) (rest : List Nat)
+    (h : sqrtmpR a p draws = .ok (r, rest)) : r * r ≡ a [ZMOD p]  := by
+  first
+  | exact RabinProofs.sqrtmp_sq_all ..
+  | (apply RabinProofs.sqrtmp_sq_all <;> assumption)
+
+/-- **`sqrtmn_sq`** for `tmcg_mpz_sqrtmn_r`: distinct odd primes, `a` a residue modulo both, any
+    draws: whenever the routine returns, its result squares to `a` modulo `p·q` -/
+theorem sqrtmnR_sq (p q : Nat) (hp : p.Prime) (hq : q.Prime) (hne : p ≠ q) (hp2 : p % 2 = 1) (hq2 : q % 2 = 1)
+    (a : Int) (hjp : jacobi a p = 1) (hjq : jacobi a q = 1) (draws : List Nat) (r : Int) (rest : List Nat)
+    (h : sqrtmnR a p q ((p : Int) * q) draws = .ok (r, rest)) : r * r ≡ a [ZMOD (p : Int) * q]  := by
+  first
+  | exact RabinProofs.sqrtmnR_sq ..
+  | (apply RabinProofs.sqrtmnR_sq <;> assumption)
+
+/-- **`sqrtmn_sq`** for `tmcg_mpz_sqrtmn_fast_all`: for a Blum key with well-formed pre-computed
+    values and a quadratic residue `a`, the call succeeds and all four roots square to `a`. -/
+theorem sqrtmnFastAll_sq (K : SecKey) (P : Pre) (hK : BlumKey K) (hP : PreOk K P) (a : Int)
+    (hqr : qrmn a K.p K.q = true) :
+    ∃ r1 r2 r3 r4, sqrtmnFastAll a K.p K.q K.m P.up P.vq P.pa1d4 P.qa1d4 = .ok (r1, r2, r3, r4) ∧
+      r1 * r1 ≡ a [ZMOD K.m] ∧ r2 * r2 ≡ a [ZMOD K.m] ∧ r3 * r3 ≡ a [ZMOD K.m] ∧ r4 * r4 ≡ a [ZMOD K.m]  := by
+  first
+  | exact RabinProofs.sqrtmnFastAll_sq ..
+  | (apply RabinProofs.sqrtmnFastAll_sq <;> assumption)
+
+end sqrt
 
 end Tmcg.C09
